@@ -1,0 +1,13 @@
+//go:build verif
+
+// Contracts for package pair1 (comment-only; read by /verif/govc).
+
+package pair1
+
+//@ func (*socket).SendMsg
+//@   before call:SendMsg#1 assert len(m.Header) == 4 && m.Header[0] == 0 && m.Header[1] == 0 && m.Header[2] == 0 && m.Header[3] == 0
+//@   before call:SendMsg#1 assert fresh_arr(m.Header) && m.Body == old(m.Body)
+//@   ensures !isnil(result) ==> len(m.Header) == 0 && m.Body == old(m.Body)
+//@
+//@ func (*socket).RecvMsg
+//@   ensures isnil(result1) && result0 != nil ==> len(result0.Header) == 0
